@@ -175,7 +175,8 @@ Inductive oop :=
 | OCtorValue (t : bool) (v : Z)      (* i, j, p, P, q : x = O(in_place, v) / O(T value) / make_optional(value) /
                                         make_optional<T>(args) / make_optional(lvalue) *)
 | OCtorValueU (t : bool) (v : Z)     (* J : x = O(U value) *)
-| OCtorEmpty (t : bool).             (* d, D : x = O() / O(nullopt) *)
+| OCtorEmpty (t : bool)              (* d, D : x = O() / O(nullopt) *)
+| OOwnMember (t : bool).             (* v : if (x) x = x->v  -- an int that lives inside the contained object (T a class) *)
 
 Inductive eop :=
 | EValue (t : bool) (v : Z)          (* v : x = X(in_place, v) *)
